@@ -139,6 +139,9 @@ func TestC12N(t *testing.T) {
 			}
 		}
 		nc.Steps = steps
+		if rapid.IntRange(0, 2).Draw(t, "careless-consumer") == 0 {
+			nc.Cfg.AcceptAllAt = []int{nc.Me} // this node's ValidateBlockProposal approves anything, even a missing block
+		}
 		c := c12Case{N: nc}
 		c.Mode = rapid.SampledFrom([]string{"raw", "raw", "struct"}).Draw(t, "mode")
 		if c.Mode == "raw" && rapid.IntRange(0, 4).Draw(t, "nobase") == 0 {
